@@ -58,12 +58,12 @@ def r1_byte_strings(text):
 
 def r2_le_bytes(text):
     m, _ = mask(text)
-    cnt = len(re.findall(r'\.to_le_bytes\(\)', m))
+    cnt = len(re.findall(r'\.to_(?:le|be)_bytes\(\)', m))
     out = []
     last = 0
-    for mo in re.finditer(r'\.to_le_bytes\(\)', m):
+    for mo in re.finditer(r'\.to_(le|be)_bytes\(\)', m):
         out.append(text[last:mo.start()])
-        out.append('.verif_to_le_bytes()')
+        out.append('.verif_to_%s_bytes()' % mo.group(1))
         last = mo.end()
     out.append(text[last:])
     return ''.join(out), cnt
